@@ -80,6 +80,72 @@ func lookupLit(l Lit) (*ssa.Lookup, bool, bool) {
 	return lk, l.Pos, true
 }
 
+// flowsFrom: v IS (a copy of) a value satisfying pred — only value-preserving
+// steps are followed: conversions, phi merges, loads of locals, whole-slice
+// expressions. Arithmetic, len, and calls are not crossed (unlike dependsOn).
+func flowsFrom(v ssa.Value, pred func(ssa.Value) bool) bool {
+	seen := map[ssa.Value]bool{}
+	var walk func(ssa.Value) bool
+	walk = func(x ssa.Value) bool {
+		if x == nil || seen[x] {
+			return false
+		}
+		seen[x] = true
+		x = unwrap(x)
+		if pred(x) {
+			return true
+		}
+		switch t := x.(type) {
+		case *ssa.Phi:
+			for _, e := range t.Edges {
+				if walk(e) {
+					return true
+				}
+			}
+		case *ssa.UnOp:
+			if t.Op == token.MUL {
+				if al, ok := t.X.(*ssa.Alloc); ok {
+					if refs := al.Referrers(); refs != nil {
+						for _, r := range *refs {
+							if st, ok := r.(*ssa.Store); ok && st.Addr == al && walk(st.Val) {
+								return true
+							}
+						}
+					}
+				}
+			}
+		case *ssa.Slice:
+			if t.Low == nil && t.High == nil {
+				return walk(t.X)
+			}
+		}
+		return false
+	}
+	return walk(v)
+}
+
+func flowsFromCall(v ssa.Value, m fnMatch, idx int) bool {
+	return flowsFrom(v, func(x ssa.Value) bool {
+		_, i, ok := isCallTo(x, m)
+		return ok && (i == idx || (i == -1 && idx == 0))
+	})
+}
+
+func flowsFromField(v ssa.Value, names ...string) bool {
+	return flowsFrom(v, func(x ssa.Value) bool {
+		fv, _ := fieldOf(x)
+		if fv == nil {
+			return false
+		}
+		for _, n := range names {
+			if fv.Name() == n {
+				return true
+			}
+		}
+		return false
+	})
+}
+
 func depOnField(v ssa.Value, names ...string) bool {
 	return dependsOn(v, func(x ssa.Value) bool {
 		fv, _ := fieldOf(x)
